@@ -181,7 +181,8 @@ fn gen_split_big(a: &str, s: &[usize], thorough: bool, out: &mut dyn FnMut(Strin
         out(format!("split_axis {a} {ax}"));
     }
     if level == 2 {
-        out(format!("split_concat {a} {} {}", uneven(s[nd / 2]), nd / 2)); out(format!("array_split {a} {} {}", s[nd - 1] + 1, nd - 1));
+        if nd <= 2 || thorough { out(format!("split_concat {a} {} {}", uneven(s[nd / 2]), nd / 2)); }
+        out(format!("array_split {a} {} {}", s[nd - 1] + 1, nd - 1));
         if thorough {
             out(format!("split {a} 2 0")); out(format!("split {a} {} {}", s[nd - 1], nd - 1)); out(format!("split_axis {a} {}", nd - 1)); out(format!("array_split {a} {} none", uneven(s[0])));
             out(format!("hsplit {a} 2")); out(format!("vsplit {a} 2")); out(format!("dsplit {a} 2"));
@@ -345,11 +346,13 @@ fn gen(tier: &str, seed: u64, out: &mut dyn FnMut(String)) {
             let unit: usize = tpl.iter().enumerate().map(|(i, &d)| if i == *ax { 1 } else { d }).product();
             for c in &combos {
                 if unit * c.iter().sum::<usize>() > cap { continue; }
+                // quick tier: the long lists only on the templates with short units (the model driver is quadratic in the result size)
+                if !thorough && ((unit > 300 && !matches!(c.as_slice(), [1, 2] | [2, 1] | [1, 1, 1] | [0, 2])) || (unit > 150 && c.as_slice() == [5, 7])) { continue; }
                 let items: Vec<(Vec<usize>, i64)> = c.iter().enumerate().map(|(j, &m)| { let mut t = tpl.clone(); t[*ax] = m; (t, 10000 * j as i64) }).collect();
                 let total = unit * c.iter().sum::<usize>();
+                if total > 1200 && !thorough { if c.len() == 2 { out(format!("append {} {} {ax}", tag_off(&items[0].0, 0), tag_off(&items[1].0, 10000))); } else { out(format!("concatenate {} {ax}", list(&items))); } continue; }
                 out(format!("concatenate {} {ax}", list(&items)));
                 out(format!("append {} {} {ax}", tag_off(&items[0].0, 0), tag_off(&items[1].0, 10000)));
-                if total > 1200 && !thorough { continue; }
                 out(format!("append {} {} {ax}", tag_off(&items[1].0, 10000), tag_off(&items[0].0, 0)));
                 if c.iter().all(|&m| m == c[0]) { out(format!("stack {} {ax}", list(&items))); out(format!("stack {} 0", list(&items))); }
                 let ops: &[&str] = match ax { 0 => &["vstack", "row_stack"], 1 => &["hstack", "column_stack"], 2 => &["dstack"], _ => &[] };
